@@ -378,7 +378,7 @@ def configs(tier):
     m3 = merges(three)
     for m in m3[::max(1, len(m3) // 12)]:
       out.append((three, m, None, 1))
-    out.append((two, ms[2], 'wxyz1', 1))
+    out.append((two, ms[2], {'data': 'wxyz1', 'may_be_closed': True}, 1))     # (stream 0's script closes it: the write may find it closed)
   return out
 
 
